@@ -7,6 +7,7 @@ from copy import deepcopy
 from dataclasses import asdict, dataclass, field
 from itertools import chain
 from pathlib import Path
+from threading import Lock
 from typing import (
     Any,
     Callable,
@@ -46,6 +47,10 @@ from tawazi.profile import Profile
 
 from .digraph import DiGraphEx
 from .helpers import async_execute, extend_results_with_args, get_return_values, sync_execute
+
+
+# guards the moment the results of setup ExecNodes are written into DAG.results (check-then-set on a StrictDict)
+setup_results_lock = Lock()
 
 
 def construct_subdag_arg_uxns(
@@ -670,12 +675,14 @@ class DAG(BaseDAG[P, RVDAG]):
         )
 
         # set DAG.results to the obtained value from setup ExecNodes
-        for node_id, result in results.items():
-            xn = self.exec_nodes[node_id]
-            if xn.setup and not xn.executed(self.results):
-                logger.debug("Setting result of setup ExecNode {} to {}", node_id, result)
-                logger.debug("Future executions will use this result.")
-                self.results[node_id] = result
+        # (threads that run the DAG for the first time at the same moment all get here: the first one stores the result)
+        with setup_results_lock:
+            for node_id, result in results.items():
+                xn = self.exec_nodes[node_id]
+                if xn.setup and not xn.executed(self.results):
+                    logger.debug("Setting result of setup ExecNode {} to {}", node_id, result)
+                    logger.debug("Future executions will use this result.")
+                    self.results[node_id] = result
 
         return exec_nodes, results, profiles
 
@@ -930,16 +937,18 @@ class AsyncDAG(BaseDAG[P, RVDAG]):
         )
 
         # set DAG.results to the obtained value from setup ExecNodes
-        for node_id, result in results.items():
-            xn = self.exec_nodes[node_id]
-            if xn.setup and not xn.executed(self.results):
-                logger.debug(
-                    "Setting result of setup ExecNode {} to {}"
-                    "Future executions will use this result.",
-                    node_id,
-                    result,
-                )
-                self.results[node_id] = result
+        # (threads that run the DAG for the first time at the same moment all get here: the first one stores the result)
+        with setup_results_lock:
+            for node_id, result in results.items():
+                xn = self.exec_nodes[node_id]
+                if xn.setup and not xn.executed(self.results):
+                    logger.debug(
+                        "Setting result of setup ExecNode {} to {}"
+                        "Future executions will use this result.",
+                        node_id,
+                        result,
+                    )
+                    self.results[node_id] = result
 
         return exec_nodes, results, profiles
 
